@@ -6,7 +6,6 @@ import (
 	"encoding/hex"
 	"fmt"
 	"net/http"
-	"strings"
 	"time"
 
 	"github.com/0xReLogic/Helios/internal/config"
@@ -37,7 +36,10 @@ func handleRequestID(r *http.Request, w http.ResponseWriter, cfg config.LoggingC
 		return ""
 	}
 
-	requestID := strings.TrimSpace(r.Header.Get(header))
+	// The HTTP parser has already removed optional whitespace around the field value.
+	// Trimming again would strip Unicode white space that is part of the client's ID, so
+	// that the client would be echoed a different value than the backend received.
+	requestID := r.Header.Get(header)
 	if requestID == "" {
 		requestID = generateIdentifier("req")
 		r.Header.Set(header, requestID)
@@ -51,7 +53,7 @@ func handleTraceID(r *http.Request, w http.ResponseWriter, cfg config.LoggingCon
 		return ""
 	}
 
-	traceID := strings.TrimSpace(r.Header.Get(header))
+	traceID := r.Header.Get(header)
 	if traceID == "" {
 		traceID = generateIdentifier("trace")
 		r.Header.Set(header, traceID)
